@@ -16,6 +16,7 @@ class MustCall:
         self.binding = binding or {}
         self.memo = {}
         self.res_memo = {}
+        self.adaptor_sites = set()
 
     def hop_ok(self, fn, bi, t):
         """does a rejection of the call at block bi make fn reject?"""
@@ -53,6 +54,14 @@ class MustCall:
                     if r not in stack and self.db.fns[r].has_mir and self.must_call(r, targets, stack)[0]:
                         hit = r
                         break
+            if hit is None and not res and t['f'].get('name') in dataflow.VERDICT_ADAPTORS:
+                # iter.try_for_each / try_fold(closure): the closure runs for every element and its rejection is the
+                # adaptor's result; a closure that must-call the targets makes this site one (in every iteration)
+                for cp in self._closure_args(fn, t):
+                    if cp not in stack and self.must_call(cp, targets, stack)[0]:
+                        hit = cp
+                        self.adaptor_sites.add((fn.path, bi))
+                        break
             if hit is None:
                 continue
             ok, why = self.hop_ok(fn, bi, t)
@@ -60,6 +69,16 @@ class MustCall:
         # closures created here and invoked through iterator adaptors are not followed: a verdict
         # computed inside a closure must come out through the adaptor's result to count
         return good, bad
+
+    def _closure_args(self, fn, t):
+        import exprtree
+        T = exprtree.Trees(self.db, fn)
+        out = []
+        for a in t.get('args', []):
+            tr = T.operand(a)
+            if isinstance(tr, tuple) and tr and tr[0] == 'closure' and tr[1] in self.db.fns:
+                out.append(tr[1])
+        return out
 
     def must_call(self, path, targets, stack=(), mode='accept'):
         key = (path, frozenset(targets), mode)
@@ -83,11 +102,17 @@ class MustCall:
         """every iteration of a loop that contains a good site passes a good site, and at least
         one such loop exists"""
         loops = {}
+        adaptors = 0
         for bi in good:
             lp = dataflow.loop_of(fn, bi)
             if lp is not None:
                 loops.setdefault(lp, set()).add(bi)
+            elif (fn.path, bi) in self.adaptor_sites:
+                adaptors += 1       # the adaptor is the loop: its closure runs for every element
         if not loops:
+            if adaptors:
+                w = cfg.must_pass_through(fn, {bi for bi in good if (fn.path, bi) in self.adaptor_sites}, 'accept')
+                return w is None, w
             return False, None
         for lp, blocks in loops.items():
             w = cfg.must_pass_through(fn, blocks, 'iteration', lp)
